@@ -137,7 +137,7 @@ BITQ(64, uint64_t, vf_nd_u64, VF_KNOWN(C05_bit_pos_cast_to_int, pos >= 64 && (in
         T x = (T)ND(), y = (T)ND();                                                                                    \
         C05_CLAUSE(0, SITE_div_sat_1, y == 0);                                                                         \
         c05_arm(); T r = KFN(x, y); c05_done();                                                                        \
-        if (sizeof(T) <= 2) { WT_ q = (WT_)x / (WT_)y; vf_assert((WT_)r == (q > (WT_)MAXV ? (WT_)MAXV : q), "div_sat(x,y) == clamp(x / y)"); } \
+        if (sizeof(T) == 1) { WT_ q = (WT_)x / (WT_)y; vf_assert((WT_)r == (q > (WT_)MAXV ? (WT_)MAXV : q), "div_sat(x,y) == clamp(x / y)"); } \
     }
 DIVQ(q_divsat_i8, int8_t, int, vf_nd_u8, k_divsat_i8, -128, 127)
 DIVQ(q_divsat_i32, int32_t, long long, vf_nd_u32, k_divsat_i32, INT32_MIN, INT32_MAX)
